@@ -68,7 +68,7 @@ fn c04_plain<T: Plain>(ctx: &mut Ctx, text: &[u8]) -> R {
     let mut idx = SENTINEL;
     let got = ctx.nopanic("parse-never-panics", || T::parse_idx(text, &mut idx), input)?;
     let ok = match (&got, &want) {
-        (Ok(h), Ok((m, end))) => h.valid() && h.model() == *m && idx == *end && h.bs() as u64 == 3u64 << m.log_bs,
+        (Ok(h), Ok((m, end))) => h.valid_both() && h.model() == *m && idx == *end && h.bs() as u64 == 3u64 << m.log_bs,
         (Err(e), Err(r)) => idx == SENTINEL && err_matches(e, r),
         _ => false,
     };
@@ -181,7 +181,7 @@ fn c05_plain<T: Plain>(ctx: &mut Ctx, m: &Model) -> R {
     let want = m.text();
     let input = || format!("type {}, hash {}", T::NAME, want);
     let h = ctx.nopanic("constructor-in-contract", || T::of(m), input)?;
-    ctx.check("object-valid", h.valid() && h.model() == *m, || {
+    ctx.check("object-valid", h.valid_both() && h.model() == *m, || {
         format!("{}\nreal code: new_from_internals gave {} (is_valid={})\noracle: a valid object holding exactly these symbols", input(), h, h.valid())
     })?;
     let s = ctx.nopanic("to_string-never-panics", || h.str_(), input)?;
@@ -212,7 +212,7 @@ fn c05_plain<T: Plain>(ctx: &mut Ctx, m: &Model) -> R {
         })?;
     }
     let back = ctx.nopanic("parse-never-panics", || T::parse(want.as_bytes()), input)?;
-    ctx.check("text-round-trip", back == Ok(h), || {
+    ctx.check("text-round-trip", matches!(&back, Ok(b) if *b == h && b.model() == *m && b.feq(&h)), || {
         format!("{}\nreal code: parsing the printed text gives {}\noracle: an object equal to the original", input(), show_plain(&back))
     })
 }
@@ -248,12 +248,12 @@ fn c06_family<F: Family>(ctx: &mut Ctx, m: &Model) -> R {
     let mut routes: Vec<(&'static str, Model, bool)> = Vec::new();
     let r = ctx.nopanic("normalize-never-panics", || {
         let n = F::normalize(&raw);
-        let mut v = vec![("normalize()", n.model(), n.valid())];
+        let mut v = vec![("normalize()", n.model(), n.valid_both())];
         let c = raw.clone_norm();
-        v.push(("clone_normalized()", c.model(), c.valid()));
+        v.push(("clone_normalized()", c.model(), c.valid_both()));
         let mut ip = raw;
         ip.norm_in_place();
-        v.push(("normalize_in_place()", ip.model(), ip.valid() && ip.feq(&c)));
+        v.push(("normalize_in_place()", ip.model(), ip.valid_both() && ip.feq(&c)));
         let n2 = F::from_raw_form(&raw);
         v.push(("from_raw_form()", n2.model(), n2.valid() && n2.feq(&n)));
         let n3 = F::norm_from(raw);
@@ -355,7 +355,7 @@ fn c07_family<F: Family>(ctx: &mut Ctx, m: &Model, other: &Model) -> R {
             let back = d.to_raw();
             let mut dirty = raw_other;
             d.into_mut_raw(&mut dirty);
-            (d.valid(), back.model(), back.valid(), dirty.feq(&back), d.raw_string(), d.as_norm().model(), d.to_norm().model(), d.norm_string(), d.is_norm(), d.lb(), d.bs())
+            (d.valid() && d.as_norm().valid_both(), back.model(), back.valid_both(), dirty.feq(&back), d.raw_string(), d.as_norm().model(), d.to_norm().model(), d.norm_string(), d.is_norm(), d.lb(), d.bs())
         }, || format!("{}, route {}", input(), route))?;
         let ok = obs.0 && obs.1 == *m && obs.2 && obs.3 && obs.4 == m.text() && obs.5 == wantn && obs.6 == wantn && obs.7 == wantn.text()
             && obs.8 == (*m == wantn) && obs.9 == m.log_bs && obs.10 as u64 == 3u64 << m.log_bs;
@@ -470,18 +470,18 @@ fn c15_width<W: Width>(ctx: &mut Ctx, ms: &Model, ml: &Model, junk_s: &Model, ju
         let l = W::Long::of(ml);
         let mut v: Vec<(&'static str, Model, bool)> = Vec::new();
         let a = W::to_long_form(&s);
-        v.push(("to_long_form", a.model(), a.valid()));
+        v.push(("to_long_form", a.model(), a.valid_both()));
         let b = W::from_short_form(&s);
         v.push(("from_short_form", b.model(), b.valid() && b.feq(&a)));
         let c = W::long_from(s);
         v.push(("From<short>", c.model(), c.valid() && c.feq(&a)));
         let mut d = W::Long::of(junk_l);
         W::into_mut_long_form(&s, &mut d);
-        v.push(("into_mut_long_form over a used object", d.model(), d.valid() && d.feq(&a)));
+        v.push(("into_mut_long_form over a used object", d.model(), d.valid_both() && d.feq(&a)));
         // widening then narrowing is the identity
         let mut back = W::Short::of(junk_s);
         let r = W::try_into_mut_short(&a, &mut back);
-        v.push(("to_long_form then try_into_mut_short over a used object", back.model(), r.is_ok() && back.valid() && back.feq(&s)));
+        v.push(("to_long_form then try_into_mut_short over a used object", back.model(), r.is_ok() && back.valid_both() && back.feq(&s)));
         let t = W::short_try_from(a);
         v.push(("to_long_form then TryFrom", t.map(|x| x.model()).unwrap_or(Model { log_bs: 255, bh1: vec![], bh2: vec![] }), t.map(|x| x.feq(&s)).unwrap_or(false)));
         // narrowing an arbitrary long hash
@@ -492,7 +492,7 @@ fn c15_width<W: Width>(ctx: &mut Ctx, ms: &Model, ml: &Model, junk_s: &Model, ju
         let narrow_ok = if ml.bh2.len() > 32 {
             r == Err(FuzzyHashOperationError::BlockHashOverflow) && dst.feq(&before) && t == Err(FuzzyHashOperationError::BlockHashOverflow)
         } else {
-            r.is_ok() && dst.valid() && dst.model() == *ml && t.map(|x| x.feq(&dst) && x.valid()).unwrap_or(false)
+            r.is_ok() && dst.valid_both() && dst.model() == *ml && t.map(|x| x.feq(&dst) && x.valid()).unwrap_or(false)
         };
         (v, narrow_ok, format!("try_into_mut_short = {:?}, destination now {} (was {}), TryFrom = {:?}", r, dst, before, t.map(|x| x.str_())))
     }, input)?;
@@ -516,14 +516,14 @@ fn c15_family<F: Family>(ctx: &mut Ctx, mn: &Model, junk: &Model) -> R {
         let n = F::Norm::of(mn);
         let mut v: Vec<(&'static str, Model, bool)> = Vec::new();
         let a = F::to_raw_form(&n);
-        v.push(("to_raw_form", a.model(), a.valid()));
+        v.push(("to_raw_form", a.model(), a.valid_both()));
         let b = F::from_normalized(&n);
         v.push(("from_normalized", b.model(), b.valid() && b.feq(&a)));
         let c = F::raw_from(n);
         v.push(("From<normalized>", c.model(), c.valid() && c.feq(&a)));
         let mut d = F::Raw::of(junk);
         F::into_mut_raw_form(&n, &mut d);
-        v.push(("into_mut_raw_form over a used object", d.model(), d.valid() && d.feq(&a)));
+        v.push(("into_mut_raw_form over a used object", d.model(), d.valid_both() && d.feq(&a)));
         let e = F::normalize(&a);
         v.push(("to_raw_form then normalize", e.model(), e.valid() && e.feq(&n)));
         let f = F::D::from_norm(&n).to_raw();
@@ -747,14 +747,14 @@ fn c11_plain<T: Plain>(ctx: &mut Ctx) -> R {
         ctx.checks.insert("constructor-contract");
         match r {
             Ok(h) => {
-                let valid = guard(|| h.valid()).unwrap_or(false);
+                let valid = guard(|| h.valid_both()).unwrap_or(false);
                 let dbg = guard(|| format!("{:?}", h)).unwrap_or_else(|e| format!("<Debug PANICKED: {}>", e));
                 let holds = guard(|| h.b1() == &b1[..] && h.b2() == &b2[..]).unwrap_or(false);
                 if !valid || (legal && !holds) || dbg.contains("PANICKED") {
                     return Err(Fail {
                         check: "constructor-contract",
                         details: format!(
-                            "{}\nreal code: {} returned {} with is_valid()={}\noracle: {}",
+                            "{}\nreal code: {} returned {} with (is_valid() and valid by the stated rules)={}\noracle: {}",
                             args(), name, dbg, valid,
                             if legal { "a valid object holding exactly the arguments" } else { "arguments are out of contract: a panic, never an invalid object" }
                         ),
@@ -804,7 +804,7 @@ fn c11_plain<T: Plain>(ctx: &mut Ctx) -> R {
         ctx.checks.insert("array-constructor-contract");
         match r {
             Ok(h) => {
-                let valid = guard(|| h.valid()).unwrap_or(false);
+                let valid = guard(|| h.valid_both()).unwrap_or(false);
                 let dbg = guard(|| format!("{:?}", h)).unwrap_or_else(|e| format!("<Debug PANICKED: {}>", e));
                 if !valid || dbg.contains("PANICKED") {
                     return Err(Fail {
